@@ -6,6 +6,7 @@ if grep -rnE '\b(Admitted|admit|Axiom|Parameter|Conjecture|Unset Guard|bypass_ch
   echo "forbidden command found in the Coq sources" >&2
   exit 1
 fi
+PYTHONPATH=/repo/src PYTHONHASHSEED=0 /venv/bin/python ../harness/translate/gen.py
 coq_makefile -f _CoqProject -o Makefile > /dev/null 2>&1
 timeout 3000 make -j16 > ../build.log 2>&1 || { tail -50 ../build.log; exit 1; }
 echo "coq build ok: $(grep -c 'Closed under the global context' ../build.log) closed assumption reports"
